@@ -123,6 +123,9 @@ func evalCompareOnly(fn *ssa.Function, o ordering) (bool, string) {
 					}
 				}
 			case *ssa.UnOp:
+				if isLogPlumbing(in) {
+					continue
+				}
 				if in.Op != token.NOT {
 					return false, "unexpected unary operator"
 				}
@@ -153,6 +156,9 @@ func evalCompareOnly(fn *ssa.Function, o ordering) (bool, string) {
 				return r, ""
 			case *ssa.DebugRef:
 			default:
+				if isLogPlumbing(in) {
+					continue
+				}
 				return false, fmt.Sprintf("unexpected instruction %T", in)
 			}
 		}
